@@ -22,6 +22,7 @@ type Env struct {
 	pkgOverride *types.Package
 	inOld    bool
 	bound    map[string]Val // let / forall / macro parameters
+	preHeap  map[string]*Term // after-call hints: the heap right before the call, read by pre(e)
 }
 
 func (env *Env) pkg() *types.Package {
@@ -371,6 +372,15 @@ func (fc *FnCtx) specCall(env *Env, e *Expr) Val {
 		}
 		// macro bodies see only their parameters (plus constants), not local cells
 		return fc.evalSpec(&me, m.Body)
+	}
+	if e.Name == "pre" && len(e.Args) == 1 {
+		// pre(e) in a hint placed after a call: e with the memory as it was before the call
+		if env.preHeap == nil {
+			panic(unsupported("pre(...) outside a hint[after:...]"))
+		}
+		o := *env
+		o.heap = env.preHeap
+		return fc.evalSpec(&o, e.Args[0])
 	}
 	arg := func(i int) Val { return fc.evalSpec(env, e.Args[i]) }
 	if strings.HasPrefix(e.Name, "uf_") {
